@@ -71,7 +71,7 @@ def replay(ctx, res, name, stride=1, tables=False):
     recs = [l for l in open(rec)]
     rejected = 0
     if recs:
-        tres = ctx.tlc("BoxTreeTrace", "BoxTreeTrace.cfg", workers=16, env={"TRACE_FILE": rec}, timeout=6000, heap_gb=12)
+        tres = ctx.tlc_trace("BoxTreeTrace", "BoxTreeTrace.cfg", rec, workers=16, timeout=6000, heap_gb=12)
         if tres.distinct != len(recs):
             raise MachineryError("TLC validated %d of %d box trees" % (tres.distinct, len(recs)))
         txt = open(tres.out_path, errors="replace").read()
